@@ -31,6 +31,14 @@
 //! `SignedObject::decode_content` / `process` - is held to the same laws, with
 //! the EE certificate's own URIs among the bases; the entry point is part of
 //! the violation signature.
+//!
+//! Third workload (`c14_doors.rs`): the same hostile manifest from the
+//! independent encoder through every door that creates a `Manifest` /
+//! `ManifestContent` from octets or from a serde transport (`take_from` DER /
+//! BER, `Manifest::decode` strict / relaxed, `SignedObject::decode` +
+//! `decode_content`, `<Manifest as Deserialize>` via serde_json and every
+//! transport of `serde_tok`); whatever a door hands out is held to the laws
+//! above, the door is part of the violation signature.
 
 use crate::core::{catch, hex, panic_location, Ctx, Rng, Stage, Tier};
 use crate::der;
@@ -48,6 +56,9 @@ use rpki::repository::x509::{Serial, Time, Validity};
 use rpki::uri::Rsync;
 use serde_json::{json, Value};
 use std::str::FromStr;
+
+#[path = "c14_doors.rs"]
+mod doors;
 
 //------------ name oracle ---------------------------------------------------
 
@@ -1312,6 +1323,9 @@ struct Counters {
 /// for everything that is not the plain decode result (whose signatures stay as
 /// they always were).
 fn path_suffix(path: &str) -> &'static str {
+    if let Some(door) = doors::suffix(path) {
+        return door;
+    }
     if path.contains("validated") {
         ":content-returned-by-validation"
     } else if path.contains("serde") {
@@ -1347,9 +1361,11 @@ fn check_content_ext(
     max_bases: usize,
 ) {
     let sfx = path_suffix(path);
+    // (the door is part of the panic signatures as well; the older paths keep theirs)
+    let door_sfx = doors::suffix(path).unwrap_or("");
     let limit = c.entries.len() + content.len() + 8;
     // --- names, len, entries
-    let listed = ctx.no_panic("iter", || case_detail(c, econtent, path), || {
+    let listed = ctx.no_panic(&format!("iter{door_sfx}"), || case_detail(c, econtent, path), || {
         content.iter().take(limit).map(|e| e.into_pair()).collect::<Vec<(Bytes, Bytes)>>()
     });
     let Some(listed) = listed else { return };
@@ -1459,7 +1475,7 @@ fn check_content_ext(
         if !dir.ends_with(b"/") {
             dir.push(b'/');
         }
-        let uris = ctx.no_panic("iter_uris", || {
+        let uris = ctx.no_panic(&format!("iter_uris{door_sfx}"), || {
             let mut d = case_detail(c, econtent, path);
             d["base"] = json!(base_text);
             d
@@ -2406,7 +2422,7 @@ fn run_object_case(ctx: &mut Ctx, k: &mut Counters, oc: &mut ObjCounters, cms: &
 }
 
 fn run_object_workload(ctx: &mut Ctx, k: &mut Counters, cms: &Cms) {
-    let total = ctx.stage_budget((6_400, 160_000), if ctx.tier == Tier::Thorough { 8_000 } else { 800 }, 0, 0);
+    let total = (ctx.stage_budget((6_400, 160_000), if ctx.tier == Tier::Thorough { 8_000 } else { 800 }, 0, 0) / compat_scale()).max(1);
     let mut rng = ctx.rng("object");
     let mut oc = ObjCounters { cases: 0, decoded: 0, validated: 0, validated_wall_clock: 0, serde_round_trips: 0 };
     for i in 0..total {
@@ -2425,6 +2441,20 @@ fn run_object_workload(ctx: &mut Ctx, k: &mut Counters, cms: &Cms) {
 }
 
 //------------ the run -------------------------------------------------------
+
+/// True in the build of stage `compat` (harness feature `compat` = rpki-rs built
+/// with its own `compat` feature).
+fn compat_build() -> bool {
+    cfg!(feature = "compat")
+}
+
+fn compat_scale() -> u64 {
+    if compat_build() {
+        4
+    } else {
+        1
+    }
+}
 
 enum Decoded {
     Ok(ManifestContent),
@@ -2501,7 +2531,15 @@ fn book(ctx: &mut Ctx, c: &Case, path: &str, names: NameVerdict, other: &Option<
 pub fn run(ctx: &mut Ctx) {
     let stage = ctx.stage;
     let sha_ok = !ctx.no_ffi();
-    let total = ctx.stage_budget((40_000, 2_000_000), if ctx.tier == Tier::Thorough { 100_000 } else { 4_000 }, if ctx.tier == Tier::Thorough { 120 } else { 40 }, 400);
+    // Stage `compat`: the harness and rpki-rs are built with the crate's `compat`
+    // feature. Everything runs again against that build, the first two workloads
+    // and the constructed hashes on a quarter of the native budget, the door
+    // workload (where a relaxation for old objects would sit) in full.
+    let scale = compat_scale();
+    if compat_build() {
+        ctx.obs("build:rpki-feature-compat:shards", 1);
+    }
+    let total = (ctx.stage_budget((40_000, 2_000_000), if ctx.tier == Tier::Thorough { 100_000 } else { 4_000 }, if ctx.tier == Tier::Thorough { 120 } else { 40 }, 400) / scale).max(1);
     let mut rng = ctx.rng("manifests");
     let cms = if sha_ok && stage != Stage::Valgrind { Cms::new(ctx) } else { None };
     if let Some(cms) = &cms {
@@ -2605,10 +2643,12 @@ pub fn run(ctx: &mut Ctx) {
     if let Some(cms) = &cms {
         run_object_workload(ctx, &mut k, cms);
     }
+    // ---- every door a Manifest / ManifestContent can come through, fed hostile names
+    doors::run_doors(ctx, &mut k, cms.as_ref());
     // ---- ManifestHash::verify on directly constructed hashes
     if sha_ok {
         let mut rng = ctx.rng("verify");
-        let n = ctx.stage_budget((4_000, 200_000), 4_000, 0, 200);
+        let n = (ctx.stage_budget((4_000, 200_000), 4_000, 0, 200) / scale).max(1);
         for _ in 0..n {
             let (hash, _unused, data, rel) = gen_hash(&mut rng, true, false);
             let data = data.unwrap_or_default();
